@@ -22,7 +22,9 @@ C10Fails(e) ==
   IF e.wellformed /\ p[1] # "ok" THEN "HARNESS: the generated lexemes are not a well-formed template by the specification; "
   ELSE IF p[1] = "dontcare" THEN F(e.set # "panic" /\ e.eval # "panic", "the template engine crashed")
   ELSE IF p[1] = "reject" THEN F(e.set = "error", "a malformed template (unclosed tag, unclosed/unopened/mismatched section, mismatched braces) was not rejected with an error")
+                               \o F("set2" \notin DOMAIN e \/ e.set2 = "error", "a malformed template was not rejected when the same text was set a second time on the same object")
   ELSE F(e.set = "ok", "a well-formed template was rejected")
+    \o F("set2" \notin DOMAIN e \/ e.set2 = "ok", "a well-formed template was rejected when it was set a second time on the same object")
     \o (IF e.set # "ok" THEN "" ELSE
           F(e.eval = "ok", "rendering a well-formed template failed")
        \o (IF e.eval # "ok" THEN "" ELSE F(e.out = Render(p[2], e.vars), "rendering differs from the reference semantics")))
